@@ -18,7 +18,7 @@
    stored document or is released whatever the outcome; each update gets a number above the one it
    replaces).  That needs the write-loop model, which is built under C05/C11 (DESIGN section 6, items
    1 and 2); this file proves what that proof will use from the allocator. *)
-From SG Require Import Base.Prelude C07.Allocator C07.AllocatorInv C07.AllocatorProofs.
+From SG Require Import Base.Prelude C07.Allocator C07.AllocatorInv C07.AllocatorProofs C07.Principal C07.PrincipalProofs.
 Open Scope N_scope.
 
 (* ---- uniqueness ---- *)
@@ -120,19 +120,31 @@ Theorem C07_window_wellformed : forall ops st tr, run init ops = (st, tr) -> for
 Proof. exact window_wellformed. Qed.
 Print Assumptions C07_window_wellformed.
 
-(* ---- UpdatePrincipal's retry loop ---- *)
+(* ---- UpdatePrincipal's retry loop (Principal.v) ---- *)
 
-(* from any reachable state: the attempts whose Save lost the CAS race each obtained one number and
-   published it as unused; only the number of the attempt that was saved (if any) is carried; the
-   numbers are fresh and increasing (instances of the theorems above, the trace being tr ++ ev) *)
-Theorem C07_principal_update_accounted : forall ops st tr i fails final st' ev,
+(* from any reachable state, whatever the outcomes of the attempts of one UpdatePrincipal call -- any
+   number of lost CAS races, then a stored principal, a failed Save (number released: the repaired
+   code), a storage timeout, or giving up -- every number the call obtained is published as unused,
+   except the one it keeps, which is carried by the stored principal (or the write timed out: the
+   exception the property allows).  The only excluded outcome is the behaviour of the code BEFORE the
+   repair on a failed Save (number neither stored nor released), for which the statement is refuted in
+   C07_Refuted.v and which the harness monitor detects on the real code. *)
+Theorem C07_principal_update_accounted : forall ops st tr i atts,
+  run init ops = (st, tr) -> busy (allocs st i) = false -> no_leaking_attempt atts ->
+  principal_accounted st i atts.
+Proof. exact principal_loop_accounted. Qed.
+Print Assumptions C07_principal_update_accounted.
+
+(* the numbers of the attempts, in order: one per attempt, the lost ones released one by one; the call's
+   trace extends the trace, so uniqueness / accounting / monotonicity above apply to it *)
+Theorem C07_principal_update_numbers : forall ops st tr i fails final st' ev,
   run init ops = (st, tr) -> busy (allocs st i) = false ->
   run st (principal_update i fails final) = (st', ev) ->
   length (singles ev) = length fails /\
   handed ev = singles ev ++ match final with Some _ => [last (allocs st' i)] | None => [] end /\
   run init (ops ++ principal_update i fails final) = (st', tr ++ ev).
 Proof. exact principal_update_accounted. Qed.
-Print Assumptions C07_principal_update_accounted.
+Print Assumptions C07_principal_update_numbers.
 
 (* ---- non-vacuity: three allocators, an interleaved nextSequenceGreaterThan, batch growth, idle
    release, a principal update with two lost CAS races, stops ---- *)
